@@ -29,13 +29,12 @@ theorem usesUserBuf_no_convert (api : Api) (h : Hint) (r : Req) (hu : usesUserBu
   · exact hu.1.1
   · exact hu.1.2
   · exact hu.1.1
+  · exact hu.1
 
-/-- `user_buffer_restored`: for every API form (blocking put, iput, iput_varn, bput, bput_varn),
-    every hint setting, every combination of conversion / swap / contiguity / imap, every request
-    size and every buffer content: the write never converts into the user buffer, and after the
-    exit (end of the blocking call, the completing wait, or cancel — all three test the recorded
-    flag) the user buffer holds exactly the bytes it held before the call. -/
-theorem user_buffer_restored (api : Api) (h : Hint) (r : Req) (buf : List UInt8) (nelems : Int) (esize : Nat)
+/-- the flag-based exits (end of the blocking call, the completing wait, cancel) of every API form
+    that decides with `usesUserBuf` (blocking put, iput, iput_varn, bput, bput_varn and the success
+    path of put_vard) -/
+theorem api_buffer_restored (api : Api) (h : Hint) (r : Req) (buf : List UInt8) (nelems : Int) (esize : Nat)
     (hlen : nelems.toNat * esize ≤ buf.length) :
     ∃ b, duringIO api h r buf nelems esize = some b ∧
          afterExit (swapFlag api h r) b nelems esize = buf := by
@@ -53,6 +52,137 @@ theorem user_buffer_restored (api : Api) (h : Hint) (r : Req) (buf : List UInt8)
     refine ⟨buf, ?_, ?_⟩
     · cases api <;> simp [duringIO, packUser, hu'] <;> (cases r.needConvert <;> cases r.needSwap <;> simp)
     · simp [afterExit, swapFlag, hu']
+
+/-- every exit of getput_vard for a write: zero-length requests (filetype MPI_DATATYPE_NULL, filetype
+    of size 0, bufcount 0), NC_ETYPE_MISMATCH, NC_EIOMISMATCH, and the write itself with the buffer
+    swapped in place or packed: the caller's buffer holds its original bytes on return. -/
+theorem vard_put_restores (h : Hint) (a : VardArgs) (buf : List UInt8)
+    (hlen : ∀ bc bn c, vardPre a = .go bc bn c → bn.toNat * a.xsz ≤ buf.length) :
+    (putVard h a buf).after = buf := by
+  unfold putVard
+  cases hp : vardPre a with
+  | zero => rfl
+  | zeroSizeMissed => rfl
+  | error e => rfl
+  | go bc bn c =>
+    have hl := hlen bc bn c hp
+    by_cases hs : a.needSwap = true
+    · simp only [hs]
+      split <;> split <;> simp [inSwapn_involutive buf bn a.xsz hl]
+    · have hs' : a.needSwap = false := by simpa using hs
+      simp only [hs']
+      split <;> split <;> simp
+
+/-- `user_buffer_restored`: for every API form (blocking put, iput, iput_varn, bput, bput_varn,
+    put_vard), every hint setting, every combination of conversion / swap / contiguity / imap, every
+    request size and every buffer content: the write never converts into the user buffer, and after
+    the exit (end of the blocking call, the completing wait, or cancel — all test the recorded flag)
+    the user buffer holds exactly the bytes it held before the call; and the same for EVERY exit of
+    put_vard / put_vard_all (success, NC_ETYPE_MISMATCH, NC_EIOMISMATCH, the three zero-length
+    forms, independent or collective), whose in-place swap and swap-back count primitive elements
+    (`bnelems`), not instances of the buffer type. -/
+theorem user_buffer_restored :
+    (∀ (api : Api) (h : Hint) (r : Req) (buf : List UInt8) (nelems : Int) (esize : Nat),
+      nelems.toNat * esize ≤ buf.length →
+      ∃ b, duringIO api h r buf nelems esize = some b ∧ afterExit (swapFlag api h r) b nelems esize = buf) ∧
+    (∀ (h : Hint) (a : VardArgs) (buf : List UInt8),
+      (∀ bc bn c, vardPre a = .go bc bn c → bn.toNat * a.xsz ≤ buf.length) →
+      (putVard h a buf).after = buf) :=
+  ⟨api_buffer_restored, vard_put_restores⟩
+
+/-- the exits of put_vard that do no buffer work: the error code, the caller's buffer is not even
+    temporarily altered, MPI-IO never sees it, and only a collective call goes on to the (zero-length)
+    MPI-IO call -/
+theorem vard_put_error_exits (h : Hint) (a : VardArgs) (buf : List UInt8) :
+    (∀ e, vardPre a = .error e → putVard h a buf = vardNoWork a e buf) ∧
+    (vardPre a = .zero → putVard h a buf = vardNoWork a NC_NOERR buf) ∧
+    (∀ e, (vardNoWork a e buf).during = buf ∧ (vardNoWork a e buf).after = buf ∧
+          (vardNoWork a e buf).xbufIsBuf = false ∧ (vardNoWork a e buf).ioCalled = a.coll) ∧
+    (a.ftypeMatches = false → a.filetypeNull = false → a.filetypeSize ≠ 0 → vardPre a = .error NC_ETYPE_MISMATCH) ∧
+    (a.filetypeNull = false → a.filetypeSize ≠ 0 → a.ftypeMatches = true → a.buftypeNull = false → a.bufcount ≠ 0 →
+       a.fnelems ≠ a.perType * a.bufcount → vardPre a = .error NC_EIOMISMATCH) := by
+  refine ⟨?_, ?_, ?_, ?_, ?_⟩
+  · intro e he; simp [putVard, he]
+  · intro he; simp [putVard, he]
+  · intro e; simp [vardNoWork]
+  · intro h1 h2 h3; simp [vardPre, h1, h2, h3]
+  · intro h1 h2 h3 h4 h5 h6; simp [vardPre, h1, h2, h3, h4, h5, h6]
+
+/-- the write path of put_vard is the decision of `usesUserBuf .putVard` on the request
+    (need_convert, need_swap, buftype_is_contig, filetype_size): same buffer handed to MPI-IO, same
+    contents during the I/O, same swap-back — with the element count `bnelems = perType · bufcount`;
+    and the count handed to MPI-IO is `bufcount` (instances of buftype) when the caller's buffer is
+    used, `bnelems` when a packed copy is. -/
+theorem vard_put_agrees (h : Hint) (a : VardArgs) (buf : List UInt8) (bc bn : Int) (c : Bool)
+    (hp : vardPre a = .go bc bn c) (hbc : bc ≠ 0) :
+    let r : Req := ⟨a.needConvert, a.needSwap, c, false, a.filetypeSize⟩
+    let o := putVard h a buf
+    o.err = NC_NOERR ∧ o.ioCalled = true ∧
+    o.xbufIsBuf = usesUserBuf .putVard h r ∧
+    some o.during = duringIO .putVard h r buf bn a.xsz ∧
+    o.after = afterExit (swapFlag .putVard h r) o.during bn a.xsz ∧
+    o.mpiCount = (if o.xbufIsBuf then bc else bn) ∧
+    (a.buftypeNull = false → bn = a.perType * a.bufcount ∧ bc = a.bufcount) := by
+  have hbc' : (bc == 0) = false := by simpa using hbc
+  have hlast : a.buftypeNull = false → bn = a.perType * a.bufcount ∧ bc = a.bufcount := by
+    intro hb
+    unfold vardPre at hp
+    simp only [hb] at hp
+    repeat' (split at hp)
+    all_goals first
+      | (injection hp with h1 h2 h3; exact ⟨h2.symm, h1.symm⟩)
+      | contradiction
+  refine ⟨?_, ?_, ?_, ?_, ?_, ?_, hlast⟩ <;>
+    (generalize hk : canSwapInPlace a.needSwap h a.filetypeSize = k
+     cases hc : a.needConvert <;> cases hs : a.needSwap <;> cases c <;> cases k <;> rw [hs] at hk <;>
+       simp [putVard, hp, hbc', hk, usesUserBuf, duringIO, afterExit, swapFlag, packUser, hs, hc, NC_NOERR])
+
+/-- put_vard followed by get_vard of the same bytes (contiguous buffer type, no type conversion):
+    whatever the hint decided on the write side (in place or packed copy), the bytes on the wire are
+    the element-wise swap of the caller's buffer, and the read returns the original buffer. -/
+theorem vard_get_roundtrip (a : VardArgs) (buf scratch : List UInt8) (bc bn : Int)
+    (hp : vardPre a = .go bc bn true) (hbc : bc ≠ 0)
+    (hlen : bn.toNat * a.xsz ≤ buf.length) :
+    (getVard a scratch (putVardWire a bn buf)).after = buf ∧
+    (∀ h, (putVard h a buf).xbufIsBuf = true → (putVard h a buf).during = putVardWire a bn buf) := by
+  have hbc' : (bc == 0) = false := by simpa using hbc
+  constructor
+  · cases hs : a.needSwap <;> simp [getVard, hp, hbc', putVardWire, hs, inSwapn_involutive buf bn a.xsz hlen]
+  · intro h
+    generalize hk : canSwapInPlace a.needSwap h a.filetypeSize = k
+    cases hc : a.needConvert <;> cases hs : a.needSwap <;> cases k <;> rw [hs] at hk <;>
+      simp [putVard, hp, hbc', hk, putVardWire, hs, hc]
+
+/-- what the code comment promises for a filetype of size 0 ("zero-length request"): NC_NOERR, no
+    buffer work, no MPI error -/
+def vard_get_zero_size_Statement : Prop :=
+  ∀ (a : VardArgs) (buf wire : List UInt8), a.filetypeNull = false → a.filetypeSize = 0 →
+    getVard a buf wire = vardNoWork a NC_NOERR buf
+
+/-- finding vard-zero-size-filetype-uninitialized: `filetype_size` is read before it is assigned on
+    this exit; with a non-zero indeterminate value get_vard goes on to ncmpio_unpack_xbuf with
+    etype = MPI_DATATYPE_NULL and xbuf = NULL (observed: MPI_ERR_TYPE in MPI_Type_size, fatal) -/
+theorem vard_get_zero_size_counterexample : ¬ vard_get_zero_size_Statement := by
+  intro h
+  have := h { filetypeNull := false, filetypeSize := 0, fnelems := 0, ftypeMatches := true, buftypeNull := false,
+              bufcount := 8, perType := 1, contig := true, needConvert := false, needSwap := true, xsz := 8,
+              coll := true, uninitSize := 1 } [] [] rfl rfl
+  simp [getVard, vardPre, vardNoWork] at this
+
+/-- … and holds whenever the indeterminate value happens to be 0 (and always for put_vard as far as
+    the caller's buffer is concerned: `vard_put_restores` has no such hypothesis) -/
+theorem vard_get_zero_size_partial (a : VardArgs) (buf wire : List UInt8)
+    (h1 : a.filetypeNull = false) (h2 : a.filetypeSize = 0) (h3 : a.uninitSize = 0) :
+    getVard a buf wire = vardNoWork a NC_NOERR buf := by
+  simp [getVard, vardPre, h1, h2, h3]
+
+/-- the exits of get_vard that do no buffer work leave the caller's buffer untouched -/
+theorem vard_get_error_exits (a : VardArgs) (buf wire : List UInt8) :
+    (∀ e, vardPre a = .error e → getVard a buf wire = vardNoWork a e buf) ∧
+    (vardPre a = .zero → getVard a buf wire = vardNoWork a NC_NOERR buf) := by
+  constructor
+  · intro e he; simp [getVard, he]
+  · intro he; simp [getVard, he]
 
 /-- the in-place swap decision, spelled out: with the default hint the user buffer is swapped in
     place only above NC_BYTE_SWAP_BUFFER_SIZE, never with hint "disable", always (when nothing else
@@ -563,7 +693,8 @@ example : LifoRun {} [.attach 64, .bput 0 16, .bput 1 16, .bput 2 16, .complete 
   · exact ⟨0, by decide⟩
 
 def obligations : List String := [
-  "swapn_involutive", "swapn_length", "usesUserBuf_no_convert", "user_buffer_restored", "in_place_swap_rule",
+  "swapn_involutive", "swapn_length", "usesUserBuf_no_convert", "api_buffer_restored", "vard_put_restores", "user_buffer_restored",
+  "vard_put_error_exits", "vard_put_agrees", "vard_get_roundtrip", "vard_get_error_exits", "vard_get_zero_size_counterexample", "vard_get_zero_size_partial", "in_place_swap_rule",
   "abuf_inv", "abuf_inv_init", "einsuffbuf_iff", "usage_ge_pending",
   "usage_eq_pending_counterexample", "einsuffbuf_spec_counterexample", "usage_eq_pending_partial"
 ]
